@@ -129,6 +129,10 @@ def run_shard(rec, tier, seed, shard, nshards):
             nS, nT = int(rng.integers(1, 4)), int(rng.integers(1, 5))
             sids, tids = gen_ids(rng, arity, n, nS, nT)
             ob = rng.random(n)
+            if rng.random() < 0.3:
+                for i in range(n):
+                    if rng.random() < 0.35:
+                        ob[i] = float(rng.choice([0.0, 0.0, 1.0, 0.25, -0.25]))
             w = {"arity": arity, "sample_ids": sids.tolist(), "treatment_ids": tids.tolist()}
             single_rows = {}
             for i in range(n):
@@ -175,6 +179,12 @@ def run_shard(rec, tier, seed, shard, nshards):
             sids, tids = sids[keep], tids[keep]
             n = len(sids)
             ob = rng.random(n)
+            if rng.random() < 0.4:
+                # fully lethal single agents (exactly 0.0), measurements that cancel to 0, exact ones
+                for i in range(n):
+                    if rng.random() < 0.35:
+                        ob[i] = float(rng.choice([0.0, 0.0, 1.0, 0.25, -0.25]))
+                rec.count("synergy_cases_with_exact_zero_effects")
             # make sure some combination rows lack a single-agent measurement
             w = {"sample_ids": sids.tolist(), "treatment_ids": tids.tolist()}
             single_rows = {}
